@@ -19,7 +19,12 @@ Modelled code (read completely):
   `SA::next_element_seed` (scoped over one element), `MA::next_key_seed` (`fallback_guard : Option<Guard>`
   created lazily at the first delivered key, `replace_location` at later keys, dropped with the `MA`
   value — which the visitor owns: normally at the end of `visit_map`, on unwinding, or NEVER if the visitor
-  leaks it with `mem::forget`); `deserialize_newtype_struct` (`with_anchor_context` for the `__yaml_*` names).
+  leaks it with `mem::forget`); `MA::next_value_seed` (`_value_guard`, since the repair of
+  `C16-static-error-at-map-value-reported-at-key`: scoped over reading ONE value, in both branches — value
+  replayed from a pending entry / read live —, created after the look-ahead `peek` with the value's
+  `reference_location`; when it is dropped the cell again holds the key location, so what Serde raises
+  after the last entry, e.g. `missing_field`, is located as before);
+  `deserialize_newtype_struct` (`with_anchor_context` for the `__yaml_*` names).
 * wrapper visitors in `src/anchors.rs`: `RcAnchor`/`ArcAnchor` (look up, deserialize inner, reuse or allocate+store),
   `RcRecursive`/`ArcRecursive` (allocate+store BEFORE the inner value), the four weak forms (look up after
   consuming the node); `src/live_events.rs` consults `recursive_anchor_in_progress` for an alias to an anchor
@@ -157,7 +162,8 @@ inductive Prog where
   | strong (kind : Kind) (body k : Prog)
   /-- visitor of a weak wrapper (`RcWeakAnchor`, `ArcWeakAnchor`, `RcRecursion`, `ArcRecursion`); `body` = consuming the node -/
   | weak (kind : Kind) (body k : Prog)
-  /-- scoped `MissingFieldLocationGuard::new(loc)` around `body` (`deserialize_map`, `SA::next_element_seed`) -/
+  /-- scoped `MissingFieldLocationGuard::new(loc)` around `body` (`deserialize_map`, `SA::next_element_seed`,
+  `MA::next_value_seed`) -/
   | guard (loc : Loc) (body k : Prog)
   /-- life of one map access `MA` (`body`); `leak` = the visitor `mem::forget`s it -/
   | ma (leak : Bool) (body k : Prog)
@@ -174,6 +180,13 @@ inductive Prog where
   /-- the event source meets an alias to anchor `id` that is on its own recursion stack -/
   | recAlias (id : Nat) (loc : Loc) (k : Prog)
 deriving DecidableEq, Repr, Inhabited
+
+/-- One mapping entry as `MA` runs it: `next_key_seed` delivers the key located at `kloc` (key guard: created
+or updated in place), the visitor does `pre` (between its two calls; nothing for a derived struct — also what
+`next_value_seed` does before it installs its guard: the look-ahead), then `next_value_seed` reads the value
+(`body`) inside the scoped value guard at the value's use-site location `vloc`; `k` = the rest of the map access. -/
+def Prog.entry (kloc : Loc) (pre : Prog → Prog) (vloc : Loc) (body k : Prog) : Prog :=
+  .key kloc (pre (.guard vloc body k))
 
 /-- Sequencing with RAII: `post` (the `Drop` impls of the construct) runs for EVERY outcome of the body;
 the continuation runs only after `Ok`. The slot of the enclosing map
